@@ -604,6 +604,7 @@ func (w *World) ruleRangeBeforeUse(rule string, d *dkgAnchors) {
 			bad := ""
 			var visit func(v ssa.Value, depth int)
 			seen := map[ssa.Value]bool{}
+			closureDelegates := 0
 			visit = func(v ssa.Value, depth int) {
 				if seen[v] || v.Referrers() == nil {
 					return
@@ -626,6 +627,57 @@ func (w *World) ruleRangeBeforeUse(rule string, d *dkgAnchors) {
 							risky, what = true, "index"
 						}
 					case *ssa.Lookup:
+					case *ssa.Store:
+						// spilled because a function literal captures it: follow the loads of the captured variable
+						if al, isAl := x.Addr.(*ssa.Alloc); isAl && x.Val == v {
+							for _, r2 := range *al.Referrers() {
+								mc, isMC := r2.(*ssa.MakeClosure)
+								if !isMC {
+									if ld, isLd := r2.(*ssa.UnOp); isLd && ld.Op == token.MUL {
+										visit(ld, depth+1)
+									}
+									continue
+								}
+								lit, _ := mc.Fn.(*ssa.Function)
+								for bi, bv := range mc.Bindings {
+									if lit == nil || bv != ssa.Value(al) || bi >= len(lit.FreeVars) {
+										continue
+									}
+									for _, r3 := range *lit.FreeVars[bi].Referrers() {
+										if ld, isLd := r3.(*ssa.UnOp); isLd && ld.Op == token.MUL {
+											visit(ld, depth+1)
+											for _, r4 := range *ld.Referrers() {
+												if c4, ok := r4.(ssa.CallInstruction); ok {
+													for _, a4 := range c4.Common().Args {
+														if a4 == ssa.Value(ld) {
+															closureDelegates++
+														}
+													}
+												}
+											}
+										}
+									}
+								}
+							}
+						}
+					case *ssa.MakeClosure:
+						// captured by a function literal: the captured variable is the same integer
+						if lit, ok := x.Fn.(*ssa.Function); ok {
+							for bi, bv := range x.Bindings {
+								if bv == v && bi < len(lit.FreeVars) {
+									visit(lit.FreeVars[bi], depth+1)
+									instrsFlat(lit, func(i2 ssa.Instruction) {
+										if c2, ok := i2.(ssa.CallInstruction); ok {
+											for _, a2 := range c2.Common().Args {
+												if a2 == ssa.Value(lit.FreeVars[bi]) {
+													closureDelegates++
+												}
+											}
+										}
+									})
+								}
+							}
+						}
 					case *ssa.MakeInterface, *ssa.BinOp, *ssa.If, *ssa.DebugRef:
 					case ssa.CallInstruction:
 						// passed on: internal callee's own checks are examined when it is an API method of a sub-instance
@@ -657,6 +709,7 @@ func (w *World) ruleRangeBeforeUse(rule string, d *dkgAnchors) {
 					}
 				}
 			})
+			delegates += closureDelegates
 			w.check(bad == "" && (uses > 0 || delegates > 0), rule, fmt.Sprintf("%s.%s/param:%s", t.Obj().Name(), n, p.Name()), fn.Pos(),
 				fmt.Sprintf("%d narrowing/index uses are range-guarded (%d delegations to sub-instance methods, checked there)", uses, delegates), fnKey(fn)+": "+bad)
 			// out-of-range ⇒ invalid-inputs error (single-instance protocols)
@@ -1498,6 +1551,7 @@ func (w *World) ruleJointDispatch(rule string, d *dkgAnchors) {
 		}
 	}
 	n := 0
+	seenDispatch := map[string]int{}
 	for _, name := range []string{"HandleBroadcastMsg", "HandlePrivateMsg", "NextTimeout", "ForceDisqualify"} {
 		fn := w.method(d.joint, name)
 		if fn == nil {
@@ -1510,13 +1564,25 @@ func (w *World) ruleJointDispatch(rule string, d *dkgAnchors) {
 				return
 			}
 			callee := c.Common().StaticCallee()
-			if callee == nil || callee.Signature.Recv() == nil || !isSub(callee.Signature.Recv().Type()) || len(c.Common().Args) == 0 {
+			var recvArg ssa.Value
+			cname := ""
+			if callee != nil && callee.Signature.Recv() != nil && isSub(callee.Signature.Recv().Type()) && len(c.Common().Args) > 0 {
+				recvArg, cname = c.Common().Args[0], callee.Name()
+			} else if callee == nil && !c.Common().IsInvoke() {
+				// a function value applied to an instance (the worker of a forEach-style helper): a dispatch site as well
+				for _, a := range c.Common().Args {
+					if isSub(a.Type()) {
+						recvArg, cname = a, "func-value"
+					}
+				}
+			}
+			if recvArg == nil {
 				return
 			}
 			n++
 			target := map[string]bool{}
-			instIdx(c.Common().Args[0], map[ssa.Value]bool{}, target)
-			key := fmt.Sprintf("joint/%s/dispatch:%s", name, callee.Name())
+			instIdx(recvArg, map[ssa.Value]bool{}, target)
+			key := fmt.Sprintf("joint/%s/dispatch:%s", name, cname)
 			bad := ""
 			for _, f := range w.factsAt(ins) {
 				for _, ld := range f.loads {
@@ -1539,9 +1605,13 @@ func (w *World) ruleJointDispatch(rule string, d *dkgAnchors) {
 						}
 					}
 					if !same && bad == "" {
-						bad = fmt.Sprintf("the call of %s on instance %v is conditioned on `%s`, which reads the state of instance %v", callee.Name(), keysOf(target), f.Expr, keysOf(src))
+						bad = fmt.Sprintf("the call of %s on instance %v is conditioned on `%s`, which reads the state of instance %v", cname, keysOf(target), f.Expr, keysOf(src))
 					}
 				}
+			}
+			seenDispatch[key]++
+			if seenDispatch[key] > 1 {
+				key += fmt.Sprintf("#%d", seenDispatch[key])
 			}
 			w.check(bad == "", rule, key, ins.Pos(), fmt.Sprintf("dispatch into instance %v depends on no other instance's state", keysOf(target)),
 				bad+": receivers that reached different intermediate conclusions about another dealer would process this event differently (honest disagreement)", factStrings(w.factsAt(ins))...)
